@@ -14,6 +14,7 @@ import (
 	"strconv"
 	"strings"
 	"sync"
+	"sync/atomic"
 	"time"
 
 	"github.com/btcsuite/btcd/blockchain"
@@ -264,6 +265,27 @@ func execHard(f []string) string {
 			n := blockchain.CompactToBig(c)
 			return blockchain.CalcWork(c).Text(16) + "/" + fmt.Sprintf("%08x", blockchain.BigToCompact(n))
 		}
+		hb := func(s string) string { // HashToBig of a hash derived from the compact (self-consistency only)
+			var h chainhash.Hash
+			c := u32hex(s)
+			for i := range h {
+				h[i] = byte(c >> (8 * uint(i%4)) * uint32(i+1))
+			}
+			return blockchain.HashToBig(&h).Text(16)
+		}
+		one0 := one
+		wantH := make(map[string]string, len(cs))
+		for _, s := range cs {
+			wantH[s] = hb(s)
+		}
+		hbad := int32(0)
+		one = func(s string) string {
+			if hb(s) != wantH[s] {
+				atomic.StoreInt32(&hbad, 1)
+			}
+			return one0(s)
+		}
+		defer func() { _ = hbad }()
 		want := make([]string, len(cs))
 		for i, s := range cs {
 			want[i] = one(s)
@@ -290,6 +312,9 @@ func execHard(f []string) string {
 				return "shared-state"
 			}
 		}
+		if atomic.LoadInt32(&hbad) != 0 {
+			return "shared-state"
+		}
 		return strings.Join(want, " ")
 	case "ctxparams":
 		return realCtxParams(i64(f[2]), i64(f[3]), i64(f[4]))
@@ -297,6 +322,10 @@ func execHard(f []string) string {
 		return realProcessHeaders(parseParams(f[2:11]), f[12:])
 	case "adj":
 		return realAdjustedTime(f[2:])
+	case "reuse":
+		return execReuse(f)
+	case "hfork":
+		return execFork(f)
 	}
 	return "bad-op"
 }
@@ -332,6 +361,145 @@ func realCtxParams(tts, ttpb, af int64) string {
 		return "err:next"
 	}
 	return fmt.Sprintf("%d %d %d %08x", chain.BlocksPerRetarget(), chain.MinRetargetTimespan(), chain.MaxRetargetTimespan(), bits)
+}
+
+func paramsSnapshot(p *chaincfg.Params) string {
+	return paramsLine(p) + fmt.Sprintf(" %p", p.PowLimit)
+}
+
+// triple = required bits / context verdict (coarsened) / MTP for header (hb, ht) on top of node
+func triple(p *chaincfg.Params, node blockchain.HeaderCtx, c blockchain.ChainCtx, times []int64, bits []uint32, hb uint32, ht int64) string {
+	req := "assert"
+	if b, err := blockchain.VerifCalcNextRequiredDifficulty(node, time.Unix(ht, 0), c); err == nil {
+		req = fmt.Sprintf("%08x", b)
+	}
+	header := &wire.BlockHeader{Version: 0x20000000, Bits: hb, Timestamp: time.Unix(ht, 0)}
+	err := blockchain.CheckBlockHeaderContext(header, node, blockchain.BFNone, c, true)
+	v := coarsen(ruleClass(err), ctxFails(p, times, bits, hb, ht, false))
+	return req + "/" + v + "/" + strconv.FormatInt(blockchain.CalcPastMedianTime(node).Unix(), 10)
+}
+
+// execReuse: inputs are values too. ONE Params, ONE BlockChain with ONE chain of real blockNodes and ONE
+// harness HeaderCtx chain are created once and used for every item of the line - sequentially, then from
+// 8 goroutines at once, then sequentially again; every answer must be the same each time (and equal
+// Lean's answer for that item), and the shared inputs must be unchanged afterwards.
+func execReuse(f []string) string {
+	p := parseParams(f[2:11])
+	type item struct {
+		d  int
+		t  int64
+		hb uint32
+	}
+	var items []item
+	for _, tok := range strings.Split(f[11], ",") {
+		x := strings.Split(tok, ":")
+		items = append(items, item{int(i64(x[0])), i64(x[1]), u32hex(x[2])})
+	}
+	times, bits := parseChain(f[12:])
+	n := len(times)
+	parents := make([]int, n)
+	for i := range parents {
+		parents[i] = i - 1
+	}
+	tree := blockchain.VerifNewC09Tree(p, parents, times, bits, n-1)
+	mine := hdrChain(times, bits)
+	cx := cctx{p}
+	pSnap, tSnap := paramsSnapshot(p), tree.Snapshot()
+	one := func(k int) string {
+		it := items[k]
+		m := n - it.d // length of the prefix the item is evaluated on
+		a := triple(p, tree.Node(m-1), tree.B, times[:m], bits[:m], it.hb, it.t)
+		b := triple(p, mine.RelativeAncestorCtx(int32(it.d)), cx, times[:m], bits[:m], it.hb, it.t)
+		if a != b {
+			return "impl-differ(" + a + "|" + b + ")"
+		}
+		if it.d == 0 {
+			if got, err := tree.B.CalcNextRequiredDifficulty(time.Unix(it.t, 0)); err == nil &&
+				fmt.Sprintf("%08x", got) != strings.SplitN(a, "/", 2)[0] {
+				return "method-differs"
+			}
+		}
+		return a
+	}
+	seq := make([]string, len(items))
+	for k := range items {
+		seq[k] = one(k)
+	}
+	var wg sync.WaitGroup
+	bad := make([]bool, 8)
+	for w := 0; w < 8; w++ {
+		wg.Add(1)
+		go func(w int) {
+			defer wg.Done()
+			for rep := 0; rep < 2; rep++ {
+				for j := range items {
+					k := (j + w) % len(items)
+					if one(k) != seq[k] {
+						bad[w] = true
+					}
+				}
+			}
+		}(w)
+	}
+	wg.Wait()
+	for _, b := range bad {
+		if b {
+			return "concurrent-differs"
+		}
+	}
+	for k := len(items) - 1; k >= 0; k-- { // again, other order
+		if one(k) != seq[k] {
+			return "order-dependent"
+		}
+	}
+	if paramsSnapshot(p) != pSnap || tree.Snapshot() != tSnap {
+		return "inputs-mutated"
+	}
+	for nd, i := blockchain.HeaderCtx(mine), n-1; nd != nil; nd, i = nd.Parent(), i-1 {
+		if nd.Timestamp() != times[i] || nd.Bits() != bits[i] {
+			return "inputs-mutated"
+		}
+	}
+	return strings.Join(seq, ",")
+}
+
+// execFork: a side branch hanging off the main chain `depth` blocks below its tip, inside ONE BlockChain
+// whose best chain is the main branch. Everything about a header on the side tip must be computed from the
+// side branch's own ancestors.
+func execFork(f []string) string {
+	p := parseParams(f[2:11])
+	hb, ht, depth := u32hex(f[11]), i64(f[12]), int(i64(f[13]))
+	var mainT, sideT []string
+	rest := f[14:]
+	for i, tok := range rest {
+		if tok == "|" {
+			mainT, sideT = rest[:i], rest[i+1:]
+			break
+		}
+	}
+	mt, mb := parseChain(mainT)
+	st, sb := parseChain(sideT)
+	nm := len(mt)
+	parents := make([]int, 0, nm+len(st))
+	for i := 0; i < nm; i++ {
+		parents = append(parents, i-1)
+	}
+	for i := range st {
+		if i == 0 {
+			parents = append(parents, nm-1-depth)
+		} else {
+			parents = append(parents, nm+i-1)
+		}
+	}
+	tree := blockchain.VerifNewC09Tree(p, parents, append(append([]int64{}, mt...), st...), append(append([]uint32{}, mb...), sb...), nm-1)
+	snap := tree.Snapshot()
+	bt := append(append([]int64{}, mt[:nm-depth]...), st...)
+	bb := append(append([]uint32{}, mb[:nm-depth]...), sb...)
+	out := triple(p, tree.Node(len(parents)-1), tree.B, bt, bb, hb, ht)
+	if tree.Snapshot() != snap {
+		return "inputs-mutated"
+	}
+	return out
 }
 
 // realAdjustedTime drives NewMedianTime / AddTimeSample / Offset / AdjustedTime. Samples are "id:offsetMs"
@@ -806,6 +974,197 @@ func generateHard(g *core.Gen) {
 			op = "nextn"
 		}
 		emit(g, class, true, fmt.Sprintf("C09 %s %s %d %s", op, paramsLine(p), times[n-1]+1, strings.Join(hs, " ")))
+	}
+
+	// extreme epochs: height/interval at 31..34, 63..66, 127..129, 255..257, 2^k and 2^k+-1 for every interval
+	// that lets an int32 height get there (a masked or truncated shift count pays 50 BTC again)
+	for _, iv := range []int64{210000, 150, 1, 2, 3, 7, 1000, 33554431, 33554432} {
+		qs := []int64{31, 32, 33, 34, 62, 63, 64, 65, 66, 95, 96, 127, 128, 129, 191, 192, 193, 255, 256, 257, 511, 512, 513}
+		for k := uint(10); k < 31; k++ {
+			qs = append(qs, 1<<k-1, 1<<k, 1<<k+1, 1<<k+64)
+		}
+		for _, q := range qs {
+			for _, d := range []int64{-1, 0, 1, iv / 2} {
+				h := q*iv + d
+				if h >= 0 && h <= 2147483647 {
+					emit(g, "subsidy-epoch", true, fmt.Sprintf("C09 subsidy %d %d", h, iv))
+				}
+			}
+		}
+	}
+
+	// heterogeneous histories: every header has its own bits and its own (non-monotone) time stamp, so a
+	// value taken from the wrong header, or memoised per chain instead of per header, shows
+	for i := 0; i < g.N(500, 15000); i++ {
+		p := synthParams(r)
+		p.PoWNoRetargeting = false
+		bpr := int(cctx{p}.BlocksPerRetarget())
+		n := boundaryLen(r, bpr)
+		hs := make([]string, n)
+		ts := int64(1600000000)
+		per := int64(p.TargetTimePerBlock / time.Second)
+		for j := 0; j < n; j++ {
+			ts += r.Range(-per, 3*per)
+			b := uint32(3+r.Intn(30))<<24 | r.U32()&0x7fffff | 0x8000
+			if p.ReduceMinDifficulty && r.Chance(1, 3) {
+				b = p.PowLimitBits
+			}
+			hs[n-1-j] = fmt.Sprintf("%d:%x", ts, b)
+		}
+		red := int64(p.MinDiffReductionTime / time.Second)
+		op := []string{"next", "nextn"}[r.Intn(2)]
+		emit(g, "next-hetero", n >= bpr, fmt.Sprintf("C09 %s %s %d %s", op, paramsLine(p), ts+r.Pick(red-1, red, red+1, 0, 1), strings.Join(hs, " ")))
+	}
+
+	// every position: a uniform history in which exactly ONE header differs (bits, or time), at every
+	// position in turn - first/last block of a period, the block before, genesis, the tip
+	for i := 0; i < g.N(12, 200); i++ {
+		p := synthParams(r)
+		p.PoWNoRetargeting = false
+		p.ReduceMinDifficulty = i%2 == 0
+		bpr := int(cctx{p}.BlocksPerRetarget())
+		n := 2*bpr + int(r.Pick(-1, 0, 0, 1))
+		if n < 2 {
+			n = 2
+		}
+		per := int64(p.TargetTimePerBlock / time.Second)
+		base := p.PowLimitBits
+		odd := blockchain.BigToCompact(new(big.Int).Rsh(p.PowLimit, 9))
+		if i%4 >= 2 {
+			base, odd = odd, base
+		}
+		for pos := 0; pos < n; pos++ {
+			for _, what := range []int{0, 1} {
+				hs := make([]string, n)
+				for j := 0; j < n; j++ {
+					t := int64(1600000000) + int64(j)*per
+					b := base
+					if j == pos && what == 0 {
+						b = odd
+					}
+					if j == pos && what == 1 {
+						t += 3*per + 1
+					}
+					hs[n-1-j] = fmt.Sprintf("%d:%x", t, b)
+				}
+				red := int64(p.MinDiffReductionTime / time.Second)
+				last := int64(1600000000) + int64(n-1)*per
+				op := []string{"next", "nextn"}[(pos+what)%2]
+				emit(g, "next-position", true, fmt.Sprintf("C09 %s %s %d %s", op, paramsLine(p), last+r.Pick(red, red+1, 1), strings.Join(hs, " ")))
+			}
+		}
+	}
+	// MTP: one outlier at every one of the last 12 positions, early and late
+	for n := 1; n <= 13; n++ {
+		for pos := 0; pos < n; pos++ {
+			for _, delta := range []int64{-100000, 100000} {
+				ts := make([]string, n)
+				for j := range ts {
+					t := int64(1500000000 + 600*(n-j))
+					if j == pos {
+						t += delta
+					}
+					ts[j] = strconv.FormatInt(t, 10)
+				}
+				emit(g, "mtp-position", n > 1, "C09 "+[]string{"mtp", "mtpn"}[(n+pos)%2]+" "+strings.Join(ts, " "))
+			}
+		}
+	}
+	// adjusted time: one far-off sample at every position of 5, 7 and 9 samples
+	for _, n := range []int{5, 7, 9} {
+		for pos := 0; pos < n; pos++ {
+			toks := make([]string, n)
+			for j := range toks {
+				ms := int64(1000 * (10 + j))
+				if j == pos {
+					ms = 1000 * r.Pick(5000, -5000, 4200, -4199)
+				}
+				toks[j] = fmt.Sprintf("q%d:%d", j, ms)
+			}
+			emit(g, "adj-position", true, "C09 adj "+strings.Join(toks, " "))
+		}
+	}
+
+	// inputs are values too: one Params / BlockChain / node chain reused for several evaluations
+	for i := 0; i < g.N(400, 10000); i++ {
+		p := synthParams(r)
+		if r.Chance(1, 3) {
+			p.EnforceBIP94 = true
+		}
+		bpr := int(cctx{p}.BlocksPerRetarget())
+		n := boundaryLen(r, bpr) + 2
+		hs, _ := genHistory(r, p, n)
+		times, bits := parseChain(hs)
+		red := int64(p.MinDiffReductionTime / time.Second)
+		k := 3 + r.Intn(4)
+		items := make([]string, k)
+		for j := range items {
+			d := r.Intn(n)
+			if j == 0 {
+				d = 0
+			}
+			m := n - d
+			tip := hdrChain(times[:m], bits[:m])
+			t := times[m-1] + r.Pick(red-1, red, red+1, 0, 1, -5, -601)
+			if r.Chance(1, 4) {
+				t = blockchain.CalcPastMedianTime(tip).Unix() + r.Pick(0, 1)
+			}
+			want, err := blockchain.VerifCalcNextRequiredDifficulty(tip, time.Unix(t, 0), cctx{p})
+			if err != nil || r.Chance(1, 6) {
+				want = bits[m-1] + uint32(r.Intn(2))
+			}
+			items[j] = fmt.Sprintf("%d:%d:%x", d, t, want)
+		}
+		emit(g, "reuse", true, fmt.Sprintf("C09 reuse %s %s %s", paramsLine(p), strings.Join(items, ","), strings.Join(hs, " ")))
+	}
+
+	// side branch next to a main branch that differs in every time stamp and every bits value
+	for i := 0; i < g.N(500, 12000); i++ {
+		p := synthParams(r)
+		p.PoWNoRetargeting = false
+		if r.Chance(1, 3) {
+			p.EnforceBIP94 = true
+		}
+		bpr := int(cctx{p}.BlocksPerRetarget())
+		per := int64(p.TargetTimePerBlock / time.Second)
+		nm := boundaryLen(r, bpr) + bpr + 1
+		depth := 1 + r.Intn(min(nm-1, 2*bpr))
+		// the side branch is as long as needed to put its tip on / next to a boundary
+		ns := depth + int(r.Pick(-1, 0, 0, 1, 2))
+		for (nm-depth+ns)%bpr != 0 && r.Chance(2, 3) {
+			ns++
+		}
+		if ns < 1 {
+			ns = 1
+		}
+		mk := func(n int, t0 int64, stepLo, stepHi int64, shift uint) ([]string, int64) {
+			out := make([]string, n)
+			t := t0
+			for j := 0; j < n; j++ {
+				t += r.Range(stepLo, stepHi)
+				b := blockchain.BigToCompact(new(big.Int).Rsh(p.PowLimit, shift+uint(r.Intn(3))))
+				if p.ReduceMinDifficulty && r.Chance(1, 4) {
+					b = p.PowLimitBits
+				}
+				out[n-1-j] = fmt.Sprintf("%d:%x", t, b)
+			}
+			return out, t
+		}
+		mainT, _ := mk(nm, 1600000000, per/2, 2*per, 4)
+		mt, _ := parseChain(mainT)
+		sideT, lastSide := mk(ns, mt[nm-1-depth], 2*per, 5*per+1, 12) // slower and harder than main
+		st, sb := parseChain(sideT)
+		bt := append(append([]int64{}, mt[:nm-depth]...), st...)
+		_, mbits := parseChain(mainT)
+		bb := append(append([]uint32{}, mbits[:nm-depth]...), sb...)
+		red := int64(p.MinDiffReductionTime / time.Second)
+		t := lastSide + r.Pick(red-1, red, red+1, 1, per)
+		want, err := blockchain.VerifCalcNextRequiredDifficulty(hdrChain(bt, bb), time.Unix(t, 0), cctx{p})
+		if err != nil || r.Chance(1, 8) {
+			want = sb[len(sb)-1]
+		}
+		emit(g, "hfork", nm-depth+ns >= bpr, fmt.Sprintf("C09 hfork %s %x %d %d %s | %s", paramsLine(p), want, t, depth,
+			strings.Join(mainT, " "), strings.Join(sideT, " ")))
 	}
 
 	// shared-state run
